@@ -26,6 +26,10 @@ func init() {
 			"behaviour of the three Session.Set implementations for duplicates (C14-C17).",
 		Run: runC05,
 		Mutants: []Mutant{
+			{Name: "report-index-read-without-mask-length", File: "speaker/bgp_controller.go",
+				Old: "\t\t\tadSvcs := pfxToSvc[ad.Prefix.String()]\n", New: "\t\t\tadSvcs := pfxToSvc[ad.Prefix.IP.String()]\n", Expect: "REPORT-KEY"},
+			{Name: "label-change-judged-by-conflicts", File: "speaker/bgp_controller.go",
+				Old: "\tif c.nodeLabels != nil && labels.Equals(c.nodeLabels, ns) {", New: "\tif c.nodeLabels != nil && !labels.Conflicts(c.nodeLabels, ns) {", Expect: "LABEL-RESYNC"},
 			{Name: "node-filter-dropped", File: "speaker/bgp_controller.go",
 				Old: "\t\t\tif !adCfg.Nodes[c.myNode] {\n\t\t\t\tcontinue\n\t\t\t}\n", New: "", Expect: "AD-BUILD"},
 			{Name: "v4-length-for-v6", File: "speaker/bgp_controller.go",
